@@ -1145,6 +1145,8 @@ def refute_by_sampling(contract, case, res, n=12, seed=0):
             outcome = Outcome("raise", exc=e)
         if outcome.kind == "raise" and isinstance(outcome.exc, OverflowError):
             continue
+        if outcome.kind == "raise" and isinstance(outcome.exc, AttributeError):
+            continue        # the replay objects are built field by field (no __init__): a missing attribute says the builder is incomplete, not the code wrong
         failed = []
         if outcome.kind == "raise":
             ok = any(isinstance(outcome.exc, cls) and zeval(when if not isinstance(when, bool) else z3.BoolVal(when), zm) is not False
